@@ -83,6 +83,15 @@ def run(case, rec):
                     rec.fail("file_meta:user-entry", [k, meta.get(k), val])
             if first is None:
                 first = v
+                # second generation: saving the loaded tree and loading it again changes nothing
+                try:
+                    src2 = serial.save_tree(loaded, prof, cfg, tmp, f"{i}b")
+                    loaded2 = serial.load_tree(prof, src2, loaded, cfg, {})
+                    rec.evals += 1
+                    if prof.view(loaded2) != v:
+                        rec.fail("second-generation:differs", {"cfg": cfg})
+                except Exception as e:  # noqa: BLE001
+                    rec.fail(f"second-generation:raises:{type(e).__name__}", {"cfg": cfg, "exc": repr(e)[:200]})
             elif v != first:
                 rec.fail("metamorphic:options-change-result", cfg)
 
